@@ -169,7 +169,7 @@ def main():
         caught = [k for k in props if det.get(k, "").startswith("CAUGHT")]
         mach = [k for k in props if det.get(k, "") == "MACHINERY"]
         verdict = "caught" if p in caught else ("not run yet" if not det else "**missed**")
-        out.append(f"| {sid} | {p} | {SEEDS[sid]['needs']} | {' '.join(caught) or '-'} | {' '.join(mach) or '-'} | {verdict} |")
+        out.append(f"| {sid} | {p} | {SEEDS[sid]['needs'].replace('|', '/')} | {' '.join(caught) or '-'} | {' '.join(mach) or '-'} | {verdict} |")
     open("/verif/seeded/RESULTS.md", "w").write("\n".join(out) + "\n")
     print("\n".join(out[8:]))
 
